@@ -570,7 +570,25 @@ func ruleTypeSwitch(c *RC) *RuleResult {
 		}
 	}
 	// body type per kind from message.DecodeBinary
-	bodyOf := map[string]string{"PreCommitType": "preCommit"}
+	// (the decoder has no arm for pre-commits; their body type is what the exported constructor builds)
+	bodyOf := map[string]string{}
+	if npc := c.Prog.ByName["internal/consensus:NewPreCommit"]; npc != nil {
+		ast.Inspect(npc.Decl.Body, func(n ast.Node) bool {
+			switch x := n.(type) {
+			case *ast.CompositeLit:
+				if t, ok := x.Type.(*ast.Ident); ok && bodyOf["PreCommitType"] == "" {
+					bodyOf["PreCommitType"] = t.Name
+				}
+			case *ast.CallExpr:
+				if id, ok := x.Fun.(*ast.Ident); ok && id.Name == "new" && len(x.Args) == 1 {
+					if t, ok := x.Args[0].(*ast.Ident); ok && bodyOf["PreCommitType"] == "" {
+						bodyOf["PreCommitType"] = t.Name
+					}
+				}
+			}
+			return true
+		})
+	}
 	for _, md := range c.clusterFns(c.messageDecoder()) {
 		ast.Inspect(md.Decl.Body, func(n ast.Node) bool {
 			sw, ok := n.(*ast.SwitchStmt)
@@ -1076,7 +1094,19 @@ func ruleHashInput(c *RC) *RuleResult {
 		_ = nmemo // no memo at all is fine
 	}
 	// blocks
-	for _, bt := range []string{"neoBlock", "amevBlock", "preBlock"} {
+	// block types: whatever type of the package has a GetHashData method (directly or through an embedded part)
+	var blockTypes []string
+	seenBT := map[string]bool{}
+	for _, fn := range c.Prog.sortedFuncs() {
+		if fn.Pkg.PkgPath == consPath && fn.Recv != "" && strings.HasSuffix(fn.Name, ".GetHashData") && !seenBT[fn.Recv] {
+			seenBT[fn.Recv] = true
+			blockTypes = append(blockTypes, fn.Recv)
+		}
+	}
+	if len(blockTypes) < 1 {
+		r.unresolved(fmt.Sprintf("block types with a GetHashData method (found %d)", len(blockTypes)))
+	}
+	for _, bt := range blockTypes {
 		ghd := c.Prog.ByName["internal/consensus:"+bt+".GetHashData"]
 		if ghd == nil {
 			continue
